@@ -38,10 +38,10 @@ def _conn(pid, what):
 
 CHECKS.update({
     "C01": _conn("C01", "C01.CompleteOnce/OwnResponse/ErrorHasCause/ResponseCompletes/NotBlockedAfterTermination/FailFastAfterTermination"),
-    "C02": _conn("C02", "C02.AnsweredAtMostOnce/NoReplyToNotification/AnsweredWhenUsable/DupInflightIdAnswered"),
+    "C02": _conn("C02", "C02.AnsweredAtMostOnce/NoReplyToNotification/AnsweredWhenUsable/AnsweredBeforeTransportClosed/DupInflightIdAnswered"),
     "C03": _conn("C03", "C03.DispatchFIFO/NotificationCompletesFirst/NotifyReturnsAfterHandOff"),
     "C04": _conn("C04", "C04.PromptReturn/CancelAnnounced/OnlyMatchingSent/OnlyMatchingCancelled/MatchingHandlerCancelled"),
-    "C05": _conn("C05", "C05.TransportClosedOnlyAfterHandlers/NoDispatchAfterClose/CloseReturns/WaitReturns/Removed/NoLeak/NoPanic and, on real client/server pairs scripted by PairEnv.tla, C05.PairCloseReturns/PairWaitReturns/PairRemoved/PairNoLeak"),
+    "C05": _conn("C05", "C05.TransportClosedOnlyAfterHandlers/AnsweredBeforeTransportClosed/NoDispatchAfterClose/CloseReturns/WaitReturns/Removed/NoLeak/NoPanic and, on real client/server pairs scripted by PairEnv.tla, C05.PairCloseReturns/PairWaitReturns/PairRemoved/PairNoLeak"),
     "C07": dict(
         engine="Negotiate", category="model_checking",
         text=("NegotiateDefs.tla states C07 as five declarative clauses over (configuration, outcome) plus a check-by-check transcription of the client and "
